@@ -52,6 +52,10 @@ EDITS = {
         ("cv02", "crates/lib/mimium-lang/src/compiler/mirgen.rs", "                    self.make_intrinsics(*label, raw_args, coerced_args, ret_ty)\n                {\n                    (res, states)", "                    self.make_intrinsics(*label, raw_args, coerced_args, ret_ty)\n                {\n                    let _ = states;\n                    (res, vec![])", "verus", "mirgen_state"),
         ("aa01", "crates/lib/mimium-lang/src/compiler/mirgen.rs", "            states.extend(s);\n            self.push_inst(Instruction::Store(ptr, v, elem_ty));", "            if i == 0 { states.extend(s); }\n            self.push_inst(Instruction::Store(ptr, v, elem_ty));", "verus", "mirgen_state"),
         ("aa02", "crates/lib/mimium-lang/src/compiler/mirgen.rs", "        // from the type information.\n        (dst, alloc_ty, states)", "        // from the type information.\n        (dst, alloc_ty, Vec::new())", "verus", "mirgen_state"),
+        ("da01", "crates/lib/mimium-lang/src/compiler/mirgen.rs", "                    [app_state, arg_states, default_states, state].concat(),", "                    [app_state, arg_states, state].concat(),", "verus", "mirgen_state"),
+        ("da02", "crates/lib/mimium-lang/src/compiler/mirgen.rs", "            self.default_arg_states.extend(states);\n", "", "verus", "mirgen_state"),
+        ("da03", "crates/lib/mimium-lang/src/compiler/mirgen.rs", "                let push_sum = ctx.get_ctxdata().push_sum;\n                if push_sum > 0 {\n                    ctx.get_current_basicblock().0.push((\n                        Arc::new(mir::Value::None),\n                        Instruction::PopStateOffset(push_sum),\n                    ));\n                }\n                let _v = ctx.push_inst(Instruction::Return(v, ty));", "                let push_sum = ctx.get_ctxdata().push_sum;\n                if push_sum > 1 {\n                    ctx.get_current_basicblock().0.push((\n                        Arc::new(mir::Value::None),\n                        Instruction::PopStateOffset(push_sum),\n                    ));\n                }\n                let _v = ctx.push_inst(Instruction::Return(v, ty));", "verus", "mirgen_state"),
+        ("da04", "crates/lib/mimium-lang/src/compiler/mirgen.rs", "                    [app_state, arg_states, default_states, state].concat(),", "                    [app_state, default_states, arg_states, state].concat(),", "verus", "mirgen_state"),
         ("lp01", "crates/lib/mimium-lang/src/compiler/mirgen.rs", "                        let child = ctx.program.functions.get_mut(c_idx.0 as usize).unwrap();", "                        let child = ctx.program.functions.get_mut((c_idx.0 as usize).saturating_sub(1)).unwrap();", "verus", "mirgen_state"),
         ("lp02", "crates/lib/mimium-lang/src/compiler/mirgen.rs", "        self.program.functions.push(newf);\n        FunctionId(index as _)", "        self.program.functions.push(newf);\n        FunctionId(self.program.functions.len() as _)", "verus", "mirgen_state"),
         ("lp03", "crates/lib/mimium-lang/src/mir.rs", "            state_skeleton: StateTreeSkeleton::FnCall(state_boxed),", "            state_skeleton: StateTreeSkeleton::FnCall(state_boxed.into_iter().take(1).collect()),", "verus", "mirgen_state"),
